@@ -13,7 +13,7 @@ Proof.
   destruct (negb (x_eof st) && (0 <? x_in_slots st) && (0 <? sz) && (m <? 4)) eqn:C; [|discriminate].
   destruct (x_parsing_done st) eqn:PD; inversion H; subst; auto.
   destruct I as [Ic Ip Ir Is Iu If Ij Il Ie Im Id Ib Iq]. unfold all_jobs, nparse in *.
-  constructor; unfold all_jobs, nparse; autorewrite with xs; auto.
+  constructor; unfold all_jobs, nparse; xs; auto.
   - apply contig_app; simpl; auto. lia.
   - constructor; auto. simpl. apply contig_le in Ic. unfold dbs_norm; simpl. split; lia.
 Qed.
@@ -39,7 +39,7 @@ Ltac bool_hyps := repeat match goal with
   end.
 
 
-Ltac nrm := unfold all_jobs, nparse, add_run, give_unit, fail; autorewrite with xs xf; autorewrite with xs.
+Ltac nrm := unfold all_jobs, nparse, add_run, give_unit, fail; xs; autorewrite with xf; xs.
 Ltac jobs_ext Ij := eapply Forall_impl; [|exact Ij]; intro; apply job_ok_ext; nrm; reflexivity.
 
 Lemma inv_parse0 st st' : inv st -> parse0 st = Some st' -> inv st'.
